@@ -203,6 +203,9 @@ func init() {
 }
 
 func runC09(c *core.Ctx) {
+	if c.Shard == 0 {
+		c09Sequences(c)
+	}
 	paths := c09Paths()
 	servers := c09Servers()
 	idx := 0
@@ -589,6 +592,157 @@ func c09Set(c *core.Ctx, set []string, srv c09server) {
 						c.Sample(map[string]any{"router": r.name, "templates": w.Templates, "server": srv.name, "request": w.Request, "routed_to": route.Path, "params": pp})
 					}
 				}
+			}
+		}
+	}
+}
+
+// c09Sequences: routers built one after another in one process. (a) A document whose server is edited in place and routed
+// again: a router built afterwards follows the document as it is then. (b) legacy.Routers over several documents: a request
+// is answered by the router of the document that declares it, whatever the order of the routers.
+func c09Sequences(c *core.Ctx) {
+	mk := func(paths gen.S, servers []any) *openapi3.T {
+		doc := baseDoc(paths)
+		if servers != nil {
+			doc["servers"] = servers
+		}
+		d, err := loadDoc(doc)
+		if err != nil {
+			return nil
+		}
+		return d
+	}
+	op := func(id string) gen.S { return gen.S{"operationId": id, "responses": okResponses()} }
+	probe := func(r routers.Router, method, target string) (string, error) {
+		req, err := http.NewRequest(method, target, nil)
+		if err != nil {
+			return "", err
+		}
+		var route *routers.Route
+		var ferr error
+		if pi := core.Guard(func() { route, _, ferr = r.FindRoute(req) }); pi != nil {
+			return "", fmt.Errorf("panic: %s", pi.Value)
+		}
+		if ferr != nil || route == nil || route.Operation == nil {
+			return "", ferr
+		}
+		return route.Operation.OperationID, nil
+	}
+	// (a)
+	for _, ed := range []struct{ name, before, after, oldURL, newURL string }{
+		{"relative base path", "/v1", "/v2", "http://h.t/v1/a", "http://h.t/v2/a"},
+		{"absolute base path", "https://h.t/base", "https://h.t/other", "https://h.t/base/a", "https://h.t/other/a"},
+		{"host", "https://h.t/base", "https://alt.t/base", "https://h.t/base/a", "https://alt.t/base/a"},
+		{"port default", "https://h.t:{port}/base", "https://h.t:{port}/base", "https://h.t:8443/base/a", "https://h.t:9443/base/a"},
+	} {
+		for _, rname := range []string{"gorillamux", "legacy"} {
+			if rname == "legacy" && ed.name == "port default" {
+				continue // the legacy router lets a server variable match any text: the default plays no part
+			}
+			srv := gen.S{"url": ed.before}
+			if strings.Contains(ed.before, "{port}") {
+				srv["variables"] = gen.S{"port": gen.S{"default": "8443"}}
+			}
+			d := mk(gen.S{"/a": gen.S{"get": op("getA")}}, gen.Arr(srv))
+			if d == nil {
+				continue
+			}
+			build := func() routers.Router {
+				var r routers.Router
+				var err error
+				if rname == "gorillamux" {
+					r, err = gorillamux.NewRouter(d)
+				} else {
+					r, err = legacy.NewRouter(d)
+				}
+				if err != nil {
+					return nil
+				}
+				return r
+			}
+			desc := fmt.Sprintf("router=%s built again after the document's server was edited in place (%s)", rname, ed.name)
+			c.Begin(desc)
+			r1 := build()
+			if r1 == nil {
+				continue
+			}
+			id1, _ := probe(r1, "GET", ed.oldURL)
+			// edit the same Server object
+			if strings.Contains(ed.before, "{port}") {
+				d.Servers[0].Variables["port"].Default = "9443"
+			} else {
+				d.Servers[0].URL = ed.after
+			}
+			r2 := build()
+			if r2 == nil {
+				continue
+			}
+			c.EvalN(3)
+			c.Distinct(desc)
+			c.Cover("history", "router-rebuilt-after-server-edit")
+			idNew, errNew := probe(r2, "GET", ed.newURL)
+			idOld, _ := probe(r2, "GET", ed.oldURL)
+			w := c09Witness{Router: rname, Templates: map[string]string{"/a": "GET"}, Server: ed.before + " -> " + ed.after, Request: "GET " + ed.newURL}
+			if id1 != "getA" {
+				c.Cover("history", "first-router-did-not-route (no verdict)")
+				continue
+			}
+			if idNew != "getA" {
+				w.Got, w.Want = fmt.Sprint(errNew), "getA"
+				c.Violate(map[string]string{"kind": "not_routed", "router": rname, "history": "server-edited-then-router-rebuilt"}, w, desc+"\nGET "+ed.newURL+" is under the document's server as it is now, but the new router answers: "+fmt.Sprint(errNew))
+			}
+			if idOld != "" {
+				w.Request, w.Got, w.Want = "GET "+ed.oldURL, idOld, "not found"
+				c.Violate(map[string]string{"kind": "routed_but_no_template_matches", "router": rname, "history": "server-edited-then-router-rebuilt"}, w, desc+"\nGET "+ed.oldURL+" is under no server of the document as it is now, but the new router routes it")
+			}
+		}
+	}
+	// (b)
+	docA := mk(gen.S{"/a": gen.S{"get": op("A.get")}, "/only-a": gen.S{"get": op("A.only")}}, nil)
+	docB := mk(gen.S{"/a": gen.S{"post": op("B.post")}, "/b/{x}": gen.S{"get": op("B.get"), "parameters": gen.Arr(gen.S{"name": "x", "in": "path", "required": true, "schema": gen.S{"type": "string"}})}}, nil)
+	docS := mk(gen.S{"/a": gen.S{"put": op("S.put")}, "/s": gen.S{"get": op("S.get")}}, gen.Arr(gen.S{"url": "http://h.t"}))
+	if docA == nil || docB == nil || docS == nil {
+		c.Note("c09Sequences: a document of the legacy.Routers part did not load")
+		return
+	}
+	ra, _ := legacy.NewRouter(docA)
+	rb, _ := legacy.NewRouter(docB)
+	rs, _ := legacy.NewRouter(docS)
+	if ra == nil || rb == nil || rs == nil {
+		c.Note("c09Sequences: a legacy router of the legacy.Routers part was not built")
+		return
+	}
+	lr := func(r routers.Router) *legacy.Router { x, _ := r.(*legacy.Router); return x }
+	orders := [][]*legacy.Router{{lr(ra), lr(rb), lr(rs)}, {lr(rb), lr(ra), lr(rs)}, {lr(rs), lr(rb), lr(ra)}, {lr(rb), lr(rs), lr(ra)}}
+	for oi, order := range orders {
+		agg := legacy.Routers(order)
+		for _, cs := range []struct{ method, target, want string }{
+			{"GET", "http://h.t/a", "A.get"}, {"POST", "http://h.t/a", "B.post"}, {"PUT", "http://h.t/a", "S.put"}, {"GET", "http://h.t/only-a", "A.only"},
+			{"GET", "http://h.t/b/7", "B.get"}, {"GET", "http://h.t/s", "S.get"}, {"DELETE", "http://h.t/a", ""}, {"GET", "http://h.t/none", ""}, {"POST", "http://other.t/a", "B.post"}, {"PUT", "http://other.t/a", ""},
+		} {
+			desc := fmt.Sprintf("legacy.Routers order#%d %s %s", oi, cs.method, cs.target)
+			c.Begin(desc)
+			req, _ := http.NewRequest(cs.method, cs.target, nil)
+			var route *routers.Route
+			var ferr error
+			c.Eval()
+			if pi := core.Guard(func() { _, route, _, ferr = agg.FindRoute(req) }); pi != nil {
+				c.Violate(core.PanicFeatures(pi), c09Witness{Router: "legacy.Routers", Request: cs.method + " " + cs.target}, pi.Stack)
+				continue
+			}
+			c.Distinct(desc)
+			c.Cover("history", "legacy.Routers")
+			got := ""
+			if ferr == nil && route != nil && route.Operation != nil {
+				got = route.Operation.OperationID
+			}
+			if got != cs.want {
+				kind := "not_routed"
+				if cs.want == "" {
+					kind = "routed_but_no_template_matches"
+				}
+				c.Violate(map[string]string{"kind": kind, "router": "legacy.Routers"}, c09Witness{Router: "legacy.Routers", Templates: map[string]string{"A:/a": "GET", "B:/a": "POST", "S(http://h.t):/a": "PUT"}, Request: cs.method + " " + cs.target, Got: got + " " + fmt.Sprint(ferr), Want: cs.want},
+					fmt.Sprintf("%s\nwant operation %q, got %q (%v)", desc, cs.want, got, ferr))
 			}
 		}
 	}
